@@ -12,7 +12,8 @@
  *  - poll: returns 1 when the condition holds (possibly after the pending environment action fired),
  *    -1/EINTR after advancing the clock by <= timeout, 0 after advancing it by exactly timeout; with a
  *    negative timeout and a condition that never becomes true the call never returns (path pruned);
- *  - close: releases an open descriptor and returns 0, otherwise -1/EBADF; a stream closed with SO_LINGER {on, 0}
+ *  - close: releases an open descriptor and returns 0 (or, when the harness grants it, releases it and reports
+ *    -1/EINTR: Linux semantics of an interrupted close), otherwise -1/EBADF + violation (double close); a stream closed with SO_LINGER {on, 0}
  *    is aborted (queued data toward the peer dropped, peer sees ECONNRESET), any other close is graceful;
  *  - a write to a stream whose peer is gone / that was shut down for writing fails with EPIPE and
  *    would raise SIGPIPE unless MSG_NOSIGNAL is passed or the disposition is SIG_IGN. */
@@ -107,7 +108,7 @@ void vs_begin_call(int faults, int mask) {
   vs.fault_budget = faults; vs.fault_mask = mask;
   vs.npoll = 0; vs.npoll_inf = 0; vs.poll_tmo_min = 0x7fffffff; vs.poll_tmo_max = -1;
   vs.last_poll_zero = 0; vs.last_fail_errno = 0;
-  vs.nb_call = 0; vs.wb_seen = 0;
+  vs.nb_call = 0; vs.wb_seen = 0; vs.close_eintr_budget = 0;
   vs.xfer_calls = 0; vs.xfer_ptr = 0; vs.xfer_len = 0; vs.xfer_ret = 0; vs.xfer_flags = 0; vs.xfer_fd = -1;
 }
 
@@ -471,8 +472,11 @@ ssize_t vm_sendto(int fd, const void *b, size_t n, int flags, const struct socka
   VS_DISPATCH(fd, vs_xfer(vsi_send(i_, b, n, flags, a, l), fd, b, n, flags));
 }
 
+/* receive flags that change the result: MSG_PEEK leaves the queue as it is, MSG_TRUNC makes a datagram
+ * receive return the REAL datagram length, MSG_DONTWAIT makes this call non-blocking; MSG_WAITALL has no
+ * effect on a non-blocking descriptor */
 static ssize_t vsi_recv(const int i, void *b, size_t n, int flags, struct sockaddr *a, socklen_t *l) {
-  (void) flags;
+  const _Bool peek = (flags & MSG_PEEK) != 0, nowait = vfd_nonblock[i] || (flags & MSG_DONTWAIT);
   int f = vs_fault(VS_M_EINTR | VS_M_EAGAIN | VS_M_SHORT | VS_M_HARD);
   if (f == VS_F_EINTR) return vs_fail(EINTR);
   if (f == VS_F_EAGAIN) return vs_fail(EAGAIN);
@@ -485,30 +489,33 @@ static ssize_t vsi_recv(const int i, void *b, size_t n, int flags, struct sockad
       if (vfd_reset[i]) return vs_fail(ECONNRESET);
       if (vfd_peer_eof[i] || vfd_shut_rd[i]) return 0;
       if (vfd_peer_gone[i]) return vs_fail(ECONNRESET);
-      if (!vfd_nonblock[i]) VASSUME(0);
+      if (!nowait) VASSUME(0);
       return vs_wb(EAGAIN);
     }
     if (n == 0) return 0;
     int k = n < (size_t) vfd_rx_len[i] ? (int) n : vfd_rx_len[i];
     if (f == VS_F_SHORT) { int s = ND_RANGE(1, VS_CAP); VASSUME(s <= k); k = s; }
     for (int x = 0; x < VS_CAP; x++) if (x < k) buf[x] = vfd_rx[i][x];
+    if (peek) return k;
     for (int x = 0; x < VS_CAP; x++) vfd_rx[i][x] = (x + k < VS_CAP) ? vfd_rx[i][x + k] : 0;
     vfd_rx_len[i] -= k; vfd_rx_total[i] += k;
     return k;
   }
   if (vfd_dq_n[i] == 0) {
-    if (!vfd_nonblock[i]) VASSUME(0);
+    if (!nowait) VASSUME(0);
     return vs_wb(EAGAIN);
   }
-  int k = n < (size_t) vfd_dq_len[i][0] ? (int) n : vfd_dq_len[i][0];
+  const int dlen = vfd_dq_len[i][0];
+  int k = n < (size_t) dlen ? (int) n : dlen;
   for (int x = 0; x < VS_CAP; x++) if (x < k) buf[x] = vfd_dq_data[i][0][x];
   if (a != NULL) { int s = vfd_dq_from[i][0]; vs_copy_addr(vfd_local[s], vfd_locallen[s], a, l); }
+  if (peek) return (flags & MSG_TRUNC) ? dlen : k;
   for (int q = 0; q + 1 < VS_DQ; q++) {
     vfd_dq_len[i][q] = vfd_dq_len[i][q + 1]; vfd_dq_from[i][q] = vfd_dq_from[i][q + 1];
     for (int x = 0; x < VS_CAP; x++) vfd_dq_data[i][q][x] = vfd_dq_data[i][q + 1][x];
   }
   vfd_dq_n[i]--; vfd_rx_total[i] += k;
-  return k;
+  return (flags & MSG_TRUNC) ? dlen : k;
 }
 
 ssize_t vm_recv(int fd, void *b, size_t n, int flags) { vs_nb_entry(); VS_DISPATCH(fd, vs_xfer(vsi_recv(i_, b, n, flags, NULL, NULL), fd, b, n, flags)); }
@@ -613,6 +620,8 @@ static int vsi_close(const int i) {
       if (k < vfd_npend[i]) { int c = vfd_peer[vfd_pend[i][k]]; vfd_embryo[vfd_pend[i][k]] = 0; if (c >= 0) { vfd_peer_eof[c] = 1; vfd_peer_gone[c] = 1; } }
     vfd_npend[i] = 0; vfd_listening[i] = 0;
   }
+  /* Linux: a close() interrupted by a signal has released the descriptor and then reports -1/EINTR */
+  if (vs.close_eintr_budget > 0 && ND_BOOL()) { vs.close_eintr_budget--; vs.nclose_eintr++; return vs_fail(EINTR); }
   return 0;
 }
 
@@ -620,5 +629,8 @@ int vm_close(int fd) {
   vs.ncalls++;
   for (int i_ = 0; i_ < VS_NFD; i_++) if (fd == VS_FD0 + i_) { if (!vfd_open[i_]) break; return vsi_close(i_); }
   vs.bad_access++; vs.bad_close++;
+  /* decided here, at the 2nd attempt, not through loop bounds: the number is not ours any more and may already
+   * name a descriptor somebody else has just opened */
+  VASSERT(0, "close() on a descriptor number that is not open (descriptor closed twice)");
   return vs_fail(EBADF);
 }
